@@ -26,6 +26,10 @@ Lemma b_eb_grow_arg c : c < nn (eb_grow_arg (zz c)).
 Proof. unfold eb_grow_arg; zb. destruct (Z.eqb_spec (Z.of_nat c) 0); lia. Qed.
 Lemma b_eb_reuse cs s : eb_reuse_cond (zz cs) (zz s) = (s <? cs).
 Proof. unfold eb_reuse_cond; zb. destruct (Z.ltb_spec (Z.of_nat s) (Z.of_nat cs)), (Nat.ltb_spec s cs); auto; lia. Qed.
+Lemma b_pfi_zero_cond c : pfi_zero_cond (zz c) = (c =? 0).
+Proof. unfold pfi_zero_cond; zb. destruct (Z.eqb_spec (Z.of_nat c) 0), (Nat.eqb_spec c 0); auto; lia. Qed.
+Lemma b_pfi_zero_ret i cs : nn (pfi_zero_ret (zz i) (zz cs)) = Nat.min i cs.
+Proof. unfold pfi_zero_ret; zb; lia. Qed.
 Lemma b_pfi_reserve s c : nn (pfi_reserve_arg (zz s) (zz c)) = s + c.
 Proof. unfold pfi_reserve_arg; zb; lia. Qed.
 Lemma b_pfi_move_end i c cs : nn (pfi_move_end (zz i) (zz c) (zz cs)) = Nat.max (i + c) cs.
@@ -73,7 +77,7 @@ Proof. unfold meta_update_capacity; zb; lia. Qed.
 Lemma b_mgr_recreate t i : mgr_recreate_cond (zz t) (zz i) = (i <=? S t).
 Proof. unfold mgr_recreate_cond; zb. destruct (Z.leb_spec (Z.of_nat i) (Z.of_nat t + 1)), (Nat.leb_spec i (S t)); auto; lia. Qed.
 
-Global Opaque reserve_skip_cond reserve_new_capacity eb_grow_cond eb_grow_arg eb_reuse_cond pfi_reserve_arg
+Global Opaque pfi_zero_cond pfi_zero_ret reserve_skip_cond reserve_new_capacity eb_grow_cond eb_grow_arg eb_reuse_cond pfi_reserve_arg
   pfi_move_end pfi_recon_end pfi_loop1_start pfi_loop2_start pfi_construct_src pfi_assign_src pfi_new_size
   ins_fill_end insr_fill_end emplace_reuse_cond erase_new_size_delta resize_grow_cond resizev_grow_cond
   resize_recon_end resizev_recon_end clear_new_size meta_ctor_csize meta_ctor_capacity meta_update_capacity
@@ -81,7 +85,7 @@ Global Opaque reserve_skip_cond reserve_new_capacity eb_grow_cond eb_grow_arg eb
 
 Ltac bridge := repeat first
   [ rewrite b_reserve_skip | rewrite b_reserve_newcap | rewrite b_eb_grow_cond | rewrite b_eb_reuse
-  | rewrite b_pfi_reserve | rewrite b_pfi_move_end | rewrite b_pfi_recon_end | rewrite b_pfi_l1_start
+  | rewrite b_pfi_zero_cond | rewrite b_pfi_zero_ret | rewrite b_pfi_reserve | rewrite b_pfi_move_end | rewrite b_pfi_recon_end | rewrite b_pfi_l1_start
   | rewrite b_pfi_l2_start | rewrite b_pfi_new_size | rewrite b_ins_fill_end | rewrite b_insr_fill_end
   | rewrite b_emplace_reuse | rewrite b_erase_delta | rewrite b_resize_grow | rewrite b_resizev_grow
   | rewrite b_resize_rend | rewrite b_resizev_rend | rewrite b_clear_size | rewrite b_meta_csize
@@ -266,29 +270,6 @@ Proof.
         -- rewrite P1 by lia. rewrite E1. cases.
       * intros Hq. apply P2. rewrite E1. cases.
       * intros Hp. rewrite P3 by lia. rewrite E1. cases.
-Qed.
-
-Lemma loop2_self : (forall v, smv v = v) -> forall k i s, i <= cap s -> k <= i ->
-  (forall p, i - k <= p < i -> isCon (cells s p)) ->
-  let s' := down_iter k i (fun st j => move_assign st j (nn (pfi_assign_src (zz j) (zz 0)))) s in
-  frame s s' /\ csize s' = csize s /\ nctor s' = nctor s /\ forall p, cells s' p = cells s p.
-Proof.
-  intros Hid. induction k as [|k IH]; intros i s Hcap Hi Hcon; cbn [down_iter].
-  - split; [apply frame_refl|]. repeat split; auto.
-  - rewrite b_pfi_asrc, Nat.sub_0_r.
-    rewrite move_assign_self; [ | lia | apply Hcon; lia ].
-    set (s1 := put _ _ _ _ _).
-    assert (E1 : forall p, cells s1 p = cells s p).
-    { intros p; subst s1; cbn [cells put]. unfold setc. destruct (Nat.eqb_spec p (i - 1)); auto.
-      subst p. rewrite Hid. symmetry; apply isCon_valof, Hcon; lia. }
-    destruct (IH (i - 1) s1) as (F & C & N & P).
-    + subst s1; cbn; lia.
-    + lia.
-    + intros p Hp; rewrite E1. apply Hcon; lia.
-    + split. { eapply frame_trans; [|exact F]. subst s1; unfold frame; cbn; repeat split; lia. }
-      split. { rewrite C; subst s1; cbn; lia. }
-      split. { rewrite N; subst s1; cbn; lia. }
-      intros p; rewrite P; apply E1.
 Qed.
 
 (* ---- the loop of erase: shift the tail down ------------------------------------------------------- *)
